@@ -91,3 +91,17 @@ Theorem C11_revert_empty_checkpoint_refuted :
   exists t maxp ops, wf_root t /\ m_iter_all (run_m rb_leaf t maxp ops) <> dict_after t ops.
 Proof. exact revert_empty_checkpoint_refuted. Qed.
 Print Assumptions C11_revert_empty_checkpoint_refuted.
+
+Theorem C11_second_revert_refuted :
+  exists t maxp ops, wf_root t /\ m_iter_all (run_m rb_leaf t maxp ops) <> dict_after t ops.
+Proof. exact second_revert_refuted. Qed.
+Print Assumptions C11_second_revert_refuted.
+
+(* partial refinement of the mutable map: Put / Delete / Checkpoint below the flush threshold, point reads *)
+Theorem C11_mutable_get_refines_partial :
+  forall (rb : list kv -> node) t maxp, wf_root t ->
+  forall ops, forallb pdc ops = true -> (length ops <= maxp)%nat ->
+  forall q, m_get q (run_m rb t maxp ops) = d_get q (dict_after t ops)
+            /\ m_has q (run_m rb t maxp ops) = d_has q (dict_after t ops).
+Proof. exact mutable_get_refines_partial. Qed.
+Print Assumptions C11_mutable_get_refines_partial.
